@@ -2104,6 +2104,14 @@ struct Explorer {
         if (r.events[e].kind == Event::kStart && r.cmds[r.events[e].cmd].spec.id() == id) return true;
       return false;
     };
+    if (cyclic && reported && r.exit_code == 0) {
+      // "stops with a 'dependency cycle' error": the message alone is not a stop
+      Violation x; x.prop = "C17"; x.clause = "cycle-reported-but-success";
+      size_t nl = r.out.find('\n', at);
+      x.detail = "ninja reported '" + r.out.substr(at, nl - at) + "' and exited 0";
+      out->push_back(x);
+      return;
+    }
     if (cyclic && !reported) {
       Violation x; x.prop = "C17"; x.clause = "cycle-not-diagnosed";
       string ids;
